@@ -12,7 +12,7 @@
                            reachable state space is finite and no length bound is imposed; only
                            the chunk counter saturates at MaxRd and a segment takes MaxW Writes),
                            under each usage grammar:
-       free    any call sequence within the usage discipline
+       free    any call sequence that starts with Reset (Discipline = "first")
        pool    connect's compressionPool: Get, Reset(src), ReadFrom [after a limited read],
                Close, Reset(http.NoBody), Put - the instance is dropped when Reset or Close fail
        tracer  dataTracer / wire_details: Reset(buffer), ReadFrom - never Close
@@ -168,9 +168,9 @@ Returns == /\ \A op \in DOps : (side = "D" /\ DGram(op)) => DStep(enc, dst, op, 
 \* the shared sink stays usable: a compressor's Close must not close what it writes to
 SinkStaysOpen == pipeOpen
 
-\* the grammars of the repository's clients stay inside the usage discipline
+\* the repository's own clients (pool, tracer) happen to keep both rules of the usage discipline
 GrammarWithinDiscipline ==
-  [][\A op \in DOps : (side = "D" /\ DCall(op)) => DDiscipline("full", last.o, last.ret, op)]_vars
+  [][\A op \in DOps : (side = "D" /\ gram # "free" /\ DCall(op)) => DDiscipline("full", last.o, last.ret, op)]_vars
 
 ViewNoHist == <<enc, side, gram, dst, cst, pipeOpen, bind, phase, last, obl, ob>>
 ViewHist   == <<enc, side, gram, hist>>
